@@ -759,6 +759,12 @@ def genJoin (rng : Rng) (len : Nat) : Rng × Array String :=
   let lines := s1.lines ++ #["observe g0", "observe g1", s!"merge g0 g1 {l1} {r1}", "observe g0", "snap g0"]
   -- every slot of the left graph, removed ones included
   let lines := (List.range capL).foldl (fun (ls : Array String) v => (ls.push s!"kids g0 {v}").push s!"kid g0 {v} A:0") lines
+  -- the read-only calls on a graph with a removed slot: the exports skip it, `inspect`/`v_print` of it are `Err`, a slice or
+  -- an `inspect` that reaches it panics
+  let lines := lines ++ #["xml g0", "dot g0", "debug g0", "display g0"]
+  let lines := (List.range capL).foldl (fun (ls : Array String) v =>
+    ((ls.push s!"vprint g0 {v}").push s!"inspect g0 {v}").push s!"slice g0 {v} g{3 + v % 3} -") lines
+  let lines := lines ++ #["observe g3", "observe g4", "observe g5", "clone g0 g6", "observe g6", "snap g6"]
   let s0 : GenSt := { s0 with rng := rng, lines := lines }
   let s0 := (List.range (len / 2 + 4)).foldl (fun s _ => s.stepRandom wild) s0
   let (rng, l2) := pickV s0.rng s1.r capR
@@ -792,8 +798,12 @@ def genJoinSer (rng : Rng) (len : Nat) : Rng × Array String :=
   let s1 : GenSt := { s0 with h := "g1", r := Sodg.R.empty, cap := capR, lines := s0.lines.push s!"new g1 {n} {capR}" }
   let s1 := match s1.tryOps [.add y, .add (y + 1), .bind y (y + 1) la, .bind y (y + 1) lb] with | some t => t | none => s1
   let s1 := (List.range (len / 4)).foldl (fun s _ => s.stepRandom prof) s1
-  (s1.rng, s1.lines ++ #["observe g0", "observe g1", s!"merge g0 g1 {x} {y}", "observe g0", "snap g0", "save g0", "loadcuts g0 1",
-    "reload g0 g2", "observe g0"])
+  let lines := s1.lines ++ #["observe g0", "observe g1", s!"merge g0 g1 {x} {y}", "observe g0", "snap g0", "save g0", "loadcuts g0 1",
+    "reload g0 g2", "observe g0"]
+  -- and the slices of it (C13: every reachable graph): from every slot, the removed one included
+  let lines := (List.range capL).foldl (fun (ls : Array String) v =>
+    (((ls.push s!"slice g0 {v} g{3 + v % 3} -").push s!"observe g{3 + v % 3}").push s!"vprint g0 {v}").push s!"inspect g0 {v}") lines
+  (s1.rng, lines ++ #["xml g0", "dot g0", "debug g0", "display g0", "observe g0"])
 
 /-- render profile: a history, then every text export of the graph and of each present (and one absent) vertex;
     repeated once more after some further calls. Here: every export of the graph held by handle `h` (which has the
